@@ -25,7 +25,7 @@ ASSUMPTIONS = [
 COMPONENTS = {'real': ['yldprolog.engine unify/Variable/Atom/Functor/unify_arrays', 'CPython generators, refcount finalisation'],
               'stub': ['consumer (seeded scheduler holding the generators)'],
               'oracle': ['Robinson unifier over tuple terms with substitution stack (ypsim.terms)']}
-REQUIRED_PROBES = ('push_under_long_chain', 'started_under_more_bindings_than_created', 'atoms_of_another_engine', 'push_ok', 'push_fail', 'push_under_bindings', 'pop_close', 'pop_drop', 'pop_resume', 'swap_trial')
+REQUIRED_PROBES = ('push_under_long_chain', 'started_under_more_bindings_than_created', 'atoms_of_another_engine', 'push_ok', 'push_fail', 'push_under_bindings', 'pop_close', 'pop_drop', 'pop_resume', 'pop_throw', 'fault_recursion_inside_unify', 'swap_trial')
 
 
 def gen(seed, tier):
@@ -47,7 +47,7 @@ def gen(seed, tier):
             ops.append(['PUSH', ['v', a], ['v', b], False] if rng.random() < 0.7 else ['PUSH', ['v', b], ['v', a], False])
         for val in rng.sample(['a', 'b', 'ab'], 2):
             ops.append(['PUSH', ['v', order[-1]], ['a', val], rng.random() < 0.3])
-            ops.append(['POP', rng.choice(('close', 'drop', 'resume'))])
+            ops.append(['POP', rng.choice(('close', 'drop', 'resume', 'throw'))])
         ops.append(['PUSH', ['v', order[0]], ['a', 'b'], True])
     for _ in range(rng.randrange(1, 26)):
         k = rng.random()
@@ -58,8 +58,10 @@ def gen(seed, tier):
             ops.append(['CREATE', TM.J(t1), TM.J(TM.mutate(rng, t1, nv + 2, depth)), rng.random() < 0.2])
         elif k < 0.15:
             ops.append(['START', rng.randrange(3)])
+        elif k < 0.17:
+            ops.append(['FAULT', rng.choice(('list', 'nest'))])
         elif k < 0.06 + p_pop:
-            ops.append(['POP', rng.choice(('close', 'drop', 'resume'))])
+            ops.append(['POP', rng.choice(('close', 'drop', 'resume', 'throw'))])
         else:
             t1 = TM.rnd_term(rng, nv + 2, depth, lists=lists)
             if rng.random() < 0.7:
@@ -207,6 +209,36 @@ def execute(plan):
                 e1, e2 = pool.build(t1), build2(t2, foreign)
                 if not judge(t1, t2, e1, e2, lambda: unify(e1, e2), op[3], foreign, 'push'):
                     break
+            elif op[0] == 'FAULT':
+                # the recursion limit strikes inside a unification of two 600-deep terms (started under the current
+                # stack, with a pool variable at the bottom); the consumer handles the RecursionError.  Later
+                # unifications must behave as if it had never been attempted.
+                import sys
+                a = b = None
+                for kk in range(600):
+                    a = yp.atom('end') if a is None else (yp.listpair(yp.atom('e'), a) if op[1] == 'list' else yp.functor('w', [a]))
+                    b = pool.vars[0] if b is None else (yp.listpair(yp.atom('e'), b) if op[1] == 'list' else yp.functor('w', [b]))
+                ft = GenTask(unify(a, b))
+                old = sys.getrecursionlimit()
+                raised = False
+                f_ = sys._getframe()
+                depth_ = 0
+                while f_ is not None:
+                    depth_ += 1
+                    f_ = f_.f_back
+                try:
+                    sys.setrecursionlimit(depth_ + 80)
+                    try:
+                        if ft.step():
+                            ft.close()
+                    except RecursionError:
+                        raised = True
+                finally:
+                    sys.setrecursionlimit(old)
+                ft.drop()
+                del a, b
+                log.count('fault_recursion_inside_unify')
+                log.ev('fault', op[1], raised)
             elif op[0] == 'CREATE':
                 if len(pending) >= 3:
                     log.ev('create-noop')
